@@ -254,9 +254,21 @@ impl Minimizer {
                             None => continue,
                         }
                     } else {
-                        if let Op::Project { via_hashmap, .. } = &mut call.op {
+                        if let Op::Project {
+                            via_hashmap,
+                            dups,
+                            via_insert,
+                            ..
+                        } = &mut call.op
+                        {
                             if field == 0 {
                                 *via_hashmap = false;
+                            }
+                            if field == 1 {
+                                dups.clear();
+                            }
+                            if field == 2 {
+                                *via_insert = false;
                             }
                         }
                         match call.op.opts_mut() {
@@ -337,7 +349,8 @@ impl Minimizer {
                     let _ = identity_sorted;
                     self.ddmin_list(cur, pairs, &|p: &mut Plan, keep: &[(String, String)]| {
                         let mut calls = Self::each_call_mut(p);
-                        if let Op::Project { files, order, .. } = &mut calls[idx].op {
+                        if let Op::Project { files, order, dups, .. } = &mut calls[idx].op {
+                            dups.clear();
                             // canonical file list = sorted by path; order = the kept enumeration
                             let mut canon: Vec<(String, String)> = keep.to_vec();
                             canon.sort();
